@@ -37,6 +37,7 @@ import (
 	"context"
 	"fmt"
 	"io"
+	"net"
 	"os"
 	"strconv"
 	"strings"
@@ -50,6 +51,7 @@ import (
 	"github.com/mgtv-tech/redis-GunYu/pkg/redis"
 	"github.com/mgtv-tech/redis-GunYu/pkg/redis/checkpoint"
 	"github.com/mgtv-tech/redis-GunYu/pkg/redis/client"
+	"github.com/mgtv-tech/redis-GunYu/pkg/redis/client/conn"
 	"github.com/mgtv-tech/redis-GunYu/pkg/vfdoubles"
 	"github.com/mgtv-tech/redis-GunYu/pkg/vfutil"
 )
@@ -212,17 +214,135 @@ func vfLIndexOf(ends []int64, off int64) int {
 	return -1
 }
 
+
+// ---------------------------------------------------------------- StartPoint of a LIVE process vs Model/FrontierProc.lean
+
+var vfLTag int
+
+const vfLRid0 = "0000000000000000000000000000000000000000"
+
+// what the RedisOutput holds between two loops
+func vfLMem(ro *RedisOutput) (string, int64, int64) {
+	ro.bisyncMissGuard.RLock()
+	miss := ro.bisyncMissRunID
+	ro.bisyncMissGuard.RUnlock()
+	return miss, ro.bisyncSeq.Load(), ro.bisyncOffset.Load()
+}
+
+func vfLMissStr(m string) string {
+	if m == "" {
+		return "-"
+	}
+	return vfutil.HexS(m)
+}
+
+// vfLProcStart: the REAL RedisOutput.StartPoint of a process that is alive (ro kept from its earlier starts / loops),
+// compared with `pstart` of the model (op c14p): input = the memory of the RedisOutput before the call (bisyncMissRunID,
+// bisyncSeq, bisyncOffset) + the namespace read back from the target; output = the answer, whether the recovery state
+// was read at all (fast path), the write requests, and the memory after the call. failAt >= 0: that request of the log
+// gets an error reply (a start that purges returns the error and stores nothing).
+func vfLProcStart(s *vfutil.Session, c *vfLCase, ro *RedisOutput, tg *vfdoubles.Target, failAt int, where string) (vfLPoint, []string) {
+	ids := []string{vfLRid, vfLRid0}
+	tie := c.lanes == 1 && c.mode != "L"
+	miss0, seq0, off0 := vfLMem(ro)
+	var nsEnc []string
+	if tie {
+		nsEnc = strings.Fields(vfC14Dump(tg, ids).encode())
+	}
+	n0 := tg.LogLen()
+	failK := 0
+	if failAt >= 0 {
+		tg.FailAt[failAt] = "ERR vf injected"
+	}
+	sp, err := ro.StartPoint(context.Background(), ids)
+	if failAt >= 0 {
+		delete(tg.FailAt, failAt)
+	}
+	st := vfLPoint{text: "err:" + fmt.Sprint(err)}
+	startTxt := "err"
+	if err == nil && sp.RunId == vfLRid {
+		st = vfLPoint{ok: true, off: sp.Offset, seq: ro.bisyncSeq.Load(), text: fmt.Sprintf("%d/seq%d", sp.Offset, ro.bisyncSeq.Load())}
+		startTxt = fmt.Sprintf("%d:%s:%d:%d", sp.DbId, vfutil.HexS(sp.RunId), sp.Offset, ro.bisyncSeq.Load())
+	} else if err == nil {
+		st.text = fmt.Sprintf("initial(%s:%d)", sp.RunId, sp.Offset)
+		startTxt = "empty"
+	}
+	log := tg.LogCopy()
+	fast := true
+	var lines []string
+	for i := n0; i < len(log); i++ {
+		e := log[i]
+		if e.Cmd() == "hgetall" && len(e.Args) > 1 && string(e.Args[1]) == checkpoint.BisyncFrontierKey(vfC14Cp) {
+			fast = false
+		}
+		if l, ok := vfC14RenderWrite(e); ok {
+			lines = append(lines, l)
+			if i == failAt {
+				failK = len(lines)
+			}
+		}
+	}
+	if !tie || len(nsEnc) < 4 {
+		return st, lines
+	}
+	vfLTag++
+	tag := vfLTag
+	miss1, seq1, off1 := vfLMem(ro)
+	op := fmt.Sprintf("c14p %d %s %s %s %s %s %s %s %d %d %d", tag, vfutil.HexS(config.Version), checkpoint.VfHexList(ids),
+		nsEnc[0], nsEnc[1], nsEnc[2], nsEnc[3], vfLMissStr(miss0), seq0, off0, failK)
+	var out []string
+	switch {
+	case startTxt == "empty":
+		out = []string{fmt.Sprintf("#%d start=empty miss=%s mem=%d/%d", tag, vfLMissStr(miss1), seq1, off1)}
+	case failK > 0:
+		out = []string{fmt.Sprintf("#%d start=%s fast=0 miss=%s mem=%d/%d", tag, startTxt, vfLMissStr(miss1), seq1, off1)}
+	default:
+		f := 0
+		if fast {
+			f = 1
+		}
+		out = []string{fmt.Sprintf("#%d start=%s n=%d fast=%d miss=%s mem=%d/%d", tag, startTxt, len(lines), f, vfLMissStr(miss1), seq1, off1)}
+		for _, l := range lines {
+			out = append(out, fmt.Sprintf("#%d %s", tag, l))
+		}
+	}
+	s.Op(op, out...)
+	s.Count("proc_start_" + where)
+	if fast {
+		if st.ok && st.seq > 0 {
+			s.Count("proc_start_fast_from_memory")
+		} else {
+			s.Count("proc_start_fast_root_without_purge")
+		}
+	} else if failK > 0 {
+		s.Count("proc_start_purge_failed")
+	} else if len(lines) > 0 {
+		s.Count("proc_start_read_with_requests")
+	} else {
+		s.Count("proc_start_read")
+	}
+	s.Distinct(fmt.Sprintf("p|%s|%v|%d|%d|%s", c.mode, fast, len(lines), failK, where))
+	return st, lines
+}
+
 func vfC14Loop(t *testing.T, s *vfutil.Session, c *vfLCase, src string) {
 	wire, ends, ks := c.wire()
 	var samples [][3]int64
 	var samplesMu sync.Mutex
 	var startEnd int
 	inner := strings.HasPrefix(c.fault, "inner:")
+	lost := strings.HasPrefix(c.fault, "lostreply:") || c.fault == "lostsave"
 	run := func(failAt map[int]string) (*vfdoubles.Target, int, error, *RedisOutput, vfLPoint) {
 		tg := vfdoubles.NewTarget()
 		c.seed(tg)
 		for k, v := range failAt {
-			if inner {
+			if lost {
+				// the EXEC of the unit is executed by the target, its reply never arrives (the connection is closed)
+				if tg.LoseReplyAt == nil {
+					tg.LoseReplyAt = map[int]bool{}
+				}
+				tg.LoseReplyAt[k] = true
+			} else if inner {
 				tg.FailInner[k] = v // the command fails when EXEC runs it (the rest of the unit is applied)
 			} else {
 				tg.FailAt[k] = v
@@ -306,6 +426,21 @@ func vfC14Loop(t *testing.T, s *vfutil.Session, c *vfLCase, src string) {
 				failAt = map[int]string{i: "OOM command not allowed when used memory > 'maxmemory'"}
 			case c.fault == "del" && e.Cmd() == "del":
 				failAt = map[int]string{i: "ERR injected"}
+			case c.fault == "lostsave":
+				// the coordinator's frontier save is applied by the target, its reply never arrives
+				if e.Cmd() == "hset" && !e.Queued && string(e.Args[1]) == checkpoint.BisyncFrontierKey(vfC14Cp) {
+					failAt = map[int]string{i: "reply lost"}
+				}
+			case lost && e.Queued && e.Cmd() == "set" && len(e.Args) > 1:
+				u, _ := strconv.Atoi(c.fault[strings.Index(c.fault, ":")+1:])
+				if u < len(ks) && string(e.Args[1]) == ks[u] {
+					for j := i + 1; j < len(log0); j++ {
+						if log0[j].Conn == e.Conn && log0[j].Cmd() == "exec" {
+							failAt = map[int]string{j: "reply lost"}
+							break
+						}
+					}
+				}
 			case (strings.HasPrefix(c.fault, "queued:") || inner) && e.Queued && e.Cmd() == "set" && len(e.Args) > 1:
 				u, _ := strconv.Atoi(c.fault[strings.Index(c.fault, ":")+1:])
 				if u < len(ks) && string(e.Args[1]) == ks[u] {
@@ -322,6 +457,20 @@ func vfC14Loop(t *testing.T, s *vfutil.Session, c *vfLCase, src string) {
 	}
 	tg, nSeed, loopErr, ro, first := run(failAt)
 	log := tg.LogCopy()
+	for k := range failAt {
+		if k >= len(log) {
+			// the run never reached the request the fault was planned for: it must not hit a later, unrelated request
+			delete(failAt, k)
+			delete(tg.FailAt, k)
+			delete(tg.FailInner, k)
+			delete(tg.LoseReplyAt, k)
+			s.Count("loop_fault_not_reached")
+		}
+	}
+	if lost {
+		// a lost reply is no fault of the target's state: the request was executed, a replay executes it
+		failAt = map[int]string{}
+	}
 	// a crash state = the request prefix, the injected fault failing again where it did
 	replay := func(l []vfdoubles.LogEntry) *vfdoubles.Target { return vfdoubles.ReplayFaults(l, 0, true, failAt) }
 	s.Count("loop_" + c.mode + "_" + src)
@@ -462,22 +611,81 @@ func vfC14Loop(t *testing.T, s *vfutil.Session, c *vfLCase, src string) {
 		s.Count("loop_inner_fault")
 		return
 	}
-	// the same process starts again (RedisOutput kept: the frontier-miss fast path may answer from memory)
-	if c.fault == "" && len(c.slow) == 0 {
-		sp, err := ro.StartPoint(context.Background(), []string{vfLRid, "0000000000000000000000000000000000000000"})
-		st := vfLPoint{text: fmt.Sprint(err)}
-		if err == nil && sp.RunId == vfLRid {
-			st = vfLPoint{ok: true, off: sp.Offset, seq: ro.bisyncSeq.Load(), text: fmt.Sprintf("%d/seq%d", sp.Offset, ro.bisyncSeq.Load())}
-		}
-		judge(replay(log), st, "same process, second StartPoint", len(log))
+	// the same process starts again (RedisOutput kept: the frontier-miss fast path may answer from memory) - after EVERY
+	// kind of loop end: clean, settled, abrupt, stopped by a fault, with a lane that stalled. The start is compared with
+	// the model of the live process (op c14p), judged like a fresh one (it names a committed prefix), must not be below
+	// what the first start of this process returned, and the process replays on from it.
+	{
+		st, _ := vfLProcStart(s, c, ro, tg, -1, "second")
+		ok2 := judge(replay(log), st, "same process, second StartPoint", len(log))
 		s.Count("loop_same_process_restart")
+		if c.fault != "" || len(c.slow) > 0 {
+			s.Count("loop_same_process_restart_after_aborted_loop")
+		}
+		if ok2 && st.off < first.off {
+			s.Violate("loop-same-process-start-below-earlier", fmt.Sprintf("the first start of the process resumed at %s, its second start (after the loop ended with %v) at %s", first.text, loopErr, st.text),
+				rep(map[string]interface{}{"start": st.text}))
+			ok2 = false
+		}
+		last := st
+		if ok2 {
+			i := vfLIndexOf(ends, st.off)
+			n2 := tg.LogLen()
+			_, _ = vfBisyncLoopRun(t, ro, tg, vfLRid, wire[ends[i]-vfLStart:], st.off, 300*time.Millisecond)
+			log2 := tg.LogCopy()
+			com := vfLCommitted(replay(log2), ks)
+			for u := startIdx + 1; u < len(com); u++ {
+				if !com[u] {
+					s.Violate("loop-same-process-resumed-run-skips-unit", fmt.Sprintf("the loop ended (%v), the same process started again at %s and replayed the rest of the stream; unit %d was never committed (committed %v)", loopErr, st.text, u, com[1:]),
+						rep(map[string]interface{}{"start": st.text}))
+					ok2 = false
+					break
+				}
+			}
+			// crash points of the second loop of the process: a fresh start names a committed prefix and never moves backwards
+			r2 := vfutil.NewRand(c.cutSeed + 29)
+			budget := 4
+			if c.lanes > 1 {
+				budget = 1 // (a cluster-typed start scans 16384 slot keys)
+			}
+			prev2 := int64(-1 << 62)
+			for kk := n2; kk <= len(log2) && ok2 && budget > 0; kk += 1 + r2.Intn(4) {
+				if kk < len(log2) && kk > 0 && log2[kk-1].Queued {
+					continue
+				}
+				budget--
+				tk := replay(log2[:kk])
+				fr, _ := vfLRead(c, tk)
+				s.Count("loop_crash_points")
+				if !judge(tk, fr, "second loop of the same process", kk) {
+					ok2 = false
+					break
+				}
+				if fr.off < prev2 {
+					s.Violate("loop-resume-moves-backwards", fmt.Sprintf("second loop of the same process (started at %s): a stop after an earlier request resumed at %d, a stop after request #%d resumes at %d", st.text, prev2, kk-nSeed, fr.off),
+						rep(map[string]interface{}{"crash_after_request": kk - nSeed, "start": fr.text}))
+					ok2 = false
+					break
+				}
+				prev2 = fr.off
+			}
+			if ok2 && (c.lanes == 1 || r2.Chance(1, 3)) {
+				st3, _ := vfLProcStart(s, c, ro, tg, -1, "third")
+				if judge(replay(log2), st3, "same process, third StartPoint", len(log2)) && st3.off < st.off {
+					s.Violate("loop-same-process-start-below-earlier", fmt.Sprintf("the second start of the process resumed at %s, its third start at %s", st.text, st3.text),
+						rep(map[string]interface{}{"start": st3.text}))
+				}
+				last = st3
+				s.Count("loop_same_process_second_loop")
+			}
+		}
 		// ... and again after the root checkpoint moved forward under the same process: a full
 		// resynchronisation (ResetStartPoint as syncMeta calls it, then the root a completed snapshot
 		// replay writes), (a) with the in-memory offset a completed SendRdb leaves, (b) the root alone
 		// (written by another writer of the same namespace). The position is the new root: the
 		// in-memory frontier of the abandoned numbering is before the snapshot.
-		if st.ok && c.lanes == 1 {
-			ids := []string{vfLRid, "0000000000000000000000000000000000000000"}
+		if c.fault == "" && len(c.slow) == 0 && ok2 && last.ok && c.lanes == 1 {
+			ids := []string{vfLRid, vfLRid0}
 			newRoot := ends[len(ends)-1] + 1000 + int64(c.cutSeed%7)
 			variant := "root-only"
 			if c.cutSeed%2 == 0 {
@@ -494,14 +702,13 @@ func vfC14Loop(t *testing.T, s *vfutil.Session, c *vfLCase, src string) {
 			if err != nil {
 				s.Violate("loop-resync-bookkeeping-fails", err.Error(), rep(nil))
 			} else {
-				sp3, err3 := ro.StartPoint(ctx, ids)
-				txt := fmt.Sprintf("%s:%d/seq%d err=%v", sp3.RunId, sp3.Offset, ro.bisyncSeq.Load(), err3)
+				st4, _ := vfLProcStart(s, c, ro, tg, -1, "newroot")
 				if ro.bisyncSeq.Load() != 0 {
 					s.Count("loop_same_process_new_root_keeps_numbering") // not a position matter: counted only
 				}
-				if err3 != nil || sp3.RunId != vfLRid || sp3.Offset != newRoot {
+				if !st4.ok || st4.off != newRoot {
 					s.Violate("loop-same-process-resumes-before-new-root", fmt.Sprintf("after the loop (in-memory frontier %s) a full resynchronisation moved the root checkpoint to %d (%s); StartPoint of the same process: %s",
-						st.text, newRoot, variant, txt), rep(map[string]interface{}{"variant": variant, "new_root": newRoot, "start": txt}))
+						last.text, newRoot, variant, st4.text), rep(map[string]interface{}{"variant": variant, "new_root": newRoot, "start": st4.text}))
 				}
 				fr, _ := vfLRead(c, vfdoubles.ReplayWith(tg.LogCopy(), 0, true))
 				if !fr.ok || fr.off != newRoot {
@@ -654,7 +861,10 @@ func vfC14LoopGen(r *vfutil.Rand) *vfLCase {
 	if c.mode != "L" && r.Chance(1, 4) {
 		c.stale = r.Range(1, 4)
 	}
-	switch r.Intn(4) {
+	switch r.Intn(5) {
+	case 4:
+		// the unit's transaction is executed, the reply is lost: the loop stops, the SAME process starts again
+		c.fault = "lostreply:" + strconv.Itoa(r.Range(1, c.n))
 	case 0:
 		if c.mode != "L" {
 			c.fault = "frontier"
@@ -671,6 +881,21 @@ func vfC14LoopGen(r *vfutil.Rand) *vfLCase {
 		if r.Bool() {
 			c.fault = "inner:" + strconv.Itoa(r.Range(1, c.n))
 		}
+	}
+	return c
+}
+
+// a unit's transaction executed by the target with the reply lost (connection reset between EXEC and its answer),
+// every mode (sync mode must then resume exactly after that unit - also when the SAME process starts again)
+func vfC14LoopGenLost(r *vfutil.Rand, mode string) *vfLCase {
+	c := &vfLCase{mode: mode, lanes: 1, n: r.Range(2, 6), settle: vfutil.Pick(r, []int{-1, 50, 150}), cutSeed: r.U64() % 1000}
+	c.fault = "lostreply:" + strconv.Itoa(r.Range(1, c.n))
+	if mode != "L" && r.Chance(1, 3) {
+		c.fault = "lostsave"
+		c.settle = vfutil.Pick(r, []int{150, 250})
+	}
+	if r.Chance(1, 5) {
+		c.txnAt = r.Range(1, c.n)
 	}
 	return c
 }
@@ -854,7 +1079,7 @@ func vfC14Linger(t *testing.T, s *vfutil.Session, mode string) {
 	}
 	for i := nRet; i < len(log); i++ {
 		if log[i].Cmd() == "exec" && oldConn[log[i].Conn] {
-			s.Violate("loop-lane-commits-after-loop-returned", fmt.Sprintf("the first loop returned (%v) after request #%d; the same process started again (resume %d, requests #%d..#%d) and replayed on; request #%d is the EXEC of a unit of the FIRST loop's stalled lane",
+			s.Violate("tie-shape:loop-commits-after-loop-returned", fmt.Sprintf("the first loop returned (%v) after request #%d; the same process started again (resume %d, requests #%d..#%d) and replayed on; request #%d is the EXEC of a unit of the FIRST loop's stalled lane",
 				err1, nRet-nSeed, sp2.Offset, nRet-nSeed+1, nSp-nSeed, i-nSeed+1), rep)
 			break
 		}
@@ -870,6 +1095,387 @@ func vfC14Linger(t *testing.T, s *vfutil.Session, mode string) {
 	if v := final.Get(0, ks[2]); v == nil || string(v.Str) != "v2" {
 		s.Violate("loop-unit-lost", "key B missing after the whole stream was replayed", rep)
 	}
+}
+
+
+// ---------------------------------------------------------------- a connection with a send buffer
+
+// vfLSock puts what a socket has between the client and the target double: a send buffer. Write never blocks on the
+// peer (the bytes are queued and delivered by a drainer), Close delivers what is queued before the peer sees the
+// end of the stream - as close(2) does on a TCP socket. (net.Pipe alone is synchronous: a writer cannot run ahead of
+// a target that is busy, which hides every transaction that was sent but not yet answered when the sender stops.)
+type vfLSock struct {
+	net.Conn
+	mu     sync.Mutex
+	cond   *sync.Cond
+	buf    []byte
+	closed bool
+}
+
+func vfLNewSock(c net.Conn) *vfLSock {
+	k := &vfLSock{Conn: c}
+	k.cond = sync.NewCond(&k.mu)
+	go func() {
+		for {
+			k.mu.Lock()
+			for len(k.buf) == 0 && !k.closed {
+				k.cond.Wait()
+			}
+			if len(k.buf) == 0 {
+				k.mu.Unlock()
+				k.Conn.Close()
+				return
+			}
+			out := k.buf
+			k.buf = nil
+			k.mu.Unlock()
+			if _, err := k.Conn.Write(out); err != nil {
+				return
+			}
+		}
+	}()
+	return k
+}
+
+func (k *vfLSock) Write(p []byte) (int, error) {
+	k.mu.Lock()
+	defer k.mu.Unlock()
+	if k.closed {
+		return 0, net.ErrClosed
+	}
+	k.buf = append(k.buf, p...)
+	k.cond.Signal()
+	return len(p), nil
+}
+
+func (k *vfLSock) Close() error {
+	k.mu.Lock()
+	k.closed = true
+	k.cond.Signal()
+	k.mu.Unlock()
+	return nil
+}
+
+// A pipeline loop that is stopped while transactions it has SENT are not answered yet, then the SAME process starts
+// again and replays on. The pipeline sender runs ahead of the receiver by up to BatchCmdCount units; what it has written
+// is in the socket and will be executed by the target whatever the sender does afterwards. What must hold (as for the
+// lanes of the parallel loop, D35): once the loop has returned no transaction of it is executed any more - the next start
+// of the process reads the recovery state and the next loop re-sends from there; a transaction of the stopped loop
+// executed after that is applied after newer writes of the same key.
+// Shape: units `set A v1; set B v2; set C v3` are sent by the first run, the target is slow inside each of them (60 ms);
+// the run is stopped with all three written; the stream goes on with `set B v4; set C v5`; the second run of the process
+// replays from where its start says to the end; then the target gets to what the first run had sent. Odd trials: window
+// (BatchCmdCount) 1 - the third unit is written but can no longer be handed to the receiver.
+func vfC14LingerPipelined(t *testing.T, s *vfutil.Session, trial int) {
+	c := &vfLCase{mode: "P", lanes: 1, n: 3}
+	ks := c.keys()
+	var wire []byte
+	ends := []int64{vfLStart}
+	for _, cmd := range [][]string{{"set", ks[1], "v1"}, {"set", ks[2], "v2"}, {"set", ks[3], "v3"}, {"set", ks[2], "v4"}, {"set", ks[3], "v5"}} {
+		bs := make([][]byte, len(cmd))
+		for i, a := range cmd {
+			bs[i] = []byte(a)
+		}
+		wire = append(wire, vfEncodeCmd(bs)...)
+		ends = append(ends, vfLStart+int64(len(wire)))
+	}
+	tg := vfdoubles.NewTarget()
+	c.seed(tg)
+	var stalled [4]atomic.Bool
+	tg.Hook = func(idx int, e vfdoubles.LogEntry) {
+		if e.Cmd() != "set" || !e.Queued || len(e.Args) < 3 {
+			return
+		}
+		for u := 1; u <= 3; u++ {
+			if string(e.Args[1]) == ks[u] && string(e.Args[2]) == "v"+strconv.Itoa(u) && !stalled[u].Swap(true) {
+				time.Sleep(60 * time.Millisecond)
+			}
+		}
+	}
+	ids := []string{vfLRid, vfLRid0}
+	nSeed := tg.LogLen()
+	var nRet, nSp int
+	var sp2 StartPoint
+	var errS1, errS2, err1, err2 error
+	window := 4
+	if trial%2 == 1 {
+		window = 1
+	}
+	synctest.Test(t, func(t *testing.T) {
+		ro := c.output(tg)
+		ro.cfg.BatchCmdCount = uint(window)
+		rc := checkpoint.VfRedisCfg()
+		ro.newRedisConn = func(ctx context.Context) (client.Redis, error) {
+			return conn.VerifNewRedisConn(vfLNewSock(tg.Dial()), rc), nil
+		}
+		ctx := context.Background()
+		var sp1 StartPoint
+		sp1, errS1 = ro.StartPoint(ctx, ids)
+		if errS1 != nil {
+			tg.CloseAll()
+			return
+		}
+		loop := func(lctx context.Context, from int64, upTo int64) (chan error, *io.PipeReader, *io.PipeWriter) {
+			pr, pw := io.Pipe()
+			done := make(chan error, 1)
+			go func() { done <- ro.sendAofBisync(lctx, vfLRid, bufio.NewReaderSize(pr, 4096), from, 0) }()
+			go func() { pw.Write(wire[from-vfLStart : upTo-vfLStart]) }()
+			return done, pr, pw
+		}
+		ctx1, cancel1 := context.WithCancel(ctx)
+		done1, pr1, pw1 := loop(ctx1, sp1.Offset, ends[3]) // units 1, 2, 3 so far
+		synctest.Wait()                                    // all three are written; the target is inside unit 1
+		cancel1()                                          // the run is stopped
+		err1 = <-done1
+		pr1.Close()
+		pw1.Close()
+		nRet = tg.LogLen()
+		sp2, errS2 = ro.StartPoint(ctx, ids) // the same process starts again
+		nSp = tg.LogLen()
+		if errS2 == nil && sp2.Offset >= vfLStart && sp2.Offset <= ends[5] {
+			ctx2, cancel2 := context.WithCancel(ctx)
+			done2, pr2, pw2 := loop(ctx2, sp2.Offset, ends[5]) // the stream has gone on: units 4, 5 write keys B, C again
+			synctest.Wait()
+			time.Sleep(400 * time.Millisecond)
+			synctest.Wait()
+			pw2.Close()
+			err2 = <-done2
+			pr2.Close()
+			cancel2()
+		}
+		time.Sleep(400 * time.Millisecond)
+		synctest.Wait()
+		tg.CloseAll()
+	})
+	s.Count(fmt.Sprintf("linger_pipelined_window%d", window))
+	op := fmt.Sprintf("c14linger2 mode=P trial=%d window=%d", trial, window)
+	rep := map[string]interface{}{"op": op}
+	if errS1 != nil || errS2 != nil {
+		s.Violate("loop-restart-fails", fmt.Sprintf("start: %v / %v", errS1, errS2), rep)
+		return
+	}
+	log := tg.LogCopy()
+	oldConn := map[int]bool{}
+	for _, e := range log[nSeed:nRet] {
+		oldConn[e.Conn] = true
+	}
+	for i := nRet; i < len(log); i++ {
+		if log[i].Cmd() == "exec" && oldConn[log[i].Conn] {
+			s.Violate("tie-shape:loop-commits-after-loop-returned", fmt.Sprintf("pipeline mode (window %d): the first loop had sent units 1, 2, 3 when it was stopped; it returned (%v) after request #%d; the same process started again (resume %d, requests #%d..#%d) and replayed on; request #%d is the EXEC of a unit the FIRST loop had sent",
+				window, err1, nRet-nSeed, sp2.Offset, nRet-nSeed+1, nSp-nSeed, i-nSeed+1), rep)
+			break
+		}
+	}
+	final := vfdoubles.ReplayWith(log, 0, true)
+	for u, want := range map[int]string{1: "v1", 2: "v4", 3: "v5"} {
+		got := "<absent>"
+		if v := final.Get(0, ks[u]); v != nil {
+			got = string(v.Str)
+		}
+		if got != want {
+			s.Violate("loop-stale-unit-overwrites-newer", fmt.Sprintf("stream: set A v1; set B v2; set C v3; set B v4; set C v5 - replayed to the end (second loop: %v); the target holds key %d (A=1, B=2, C=3) = %s, not %s: a unit the first loop had sent was applied after the second loop's newer write", err2, u, got, want), rep)
+			break
+		}
+	}
+}
+
+
+// ---------------------------------------------------------------- a paced stream: the in-memory frontier vs the STORED one
+
+// vfLPacedLoop runs the real send loop on a stream that arrives piece by piece (gap of virtual time between the pieces):
+// flush ticks fall between units, so the coordinator saves frontiers while the loop is under way.
+func vfLPacedLoop(t *testing.T, ro *RedisOutput, tg *vfdoubles.Target, pieces [][]byte, gap time.Duration, start int64) (retErr error) {
+	synctest.Test(t, func(t *testing.T) {
+		ctx, cancel := context.WithCancel(context.Background())
+		defer cancel()
+		pr, pw := io.Pipe()
+		done := make(chan error, 1)
+		go func() { done <- ro.sendAofBisync(ctx, vfLRid, bufio.NewReaderSize(pr, 4096), start, 0) }()
+		wrote := make(chan struct{})
+		go func() {
+			defer close(wrote)
+			for _, p := range pieces {
+				if _, err := pw.Write(p); err != nil {
+					return
+				}
+				time.Sleep(gap)
+			}
+		}()
+		select {
+		case retErr = <-done: // the loop stopped by itself (error)
+		case <-wrote:
+			synctest.Wait()
+			pw.Close()
+			retErr = <-done
+		}
+		pr.Close()
+		<-wrote
+		synctest.Wait()
+		tg.CloseAll()
+	})
+	return retErr
+}
+
+// A process whose first start missed (fast path armed) replays a stream that arrives slowly: the coordinator saves
+// frontiers 1, 2, ... as it goes. Unit failU is refused by the target (EXECABORT): the loop stops with an error, the
+// SAME process starts again - answered from memory - and replays the rest, slowly again, flush ticks in between.
+// What the memory must guarantee (invariant snapLe of Model/FrontierProc.lean: the in-memory frontier is not below the
+// snapshot stored on the target): the next coordinator starts from it and SAVES what it reaches - starting below the
+// stored snapshot it would overwrite the snapshot with an older frontier whose journal records are long deleted.
+// Monitors: the in-process start like every start; at every request prefix of the second loop a fresh start names a
+// committed prefix and never moves backwards.
+func vfC14PacedRestart(t *testing.T, s *vfutil.Session, mode string, n int, failU int, gapMs int) {
+	c := &vfLCase{mode: mode, lanes: 1, n: n}
+	wire, ends, ks := c.wire()
+	pieces := func(from int) [][]byte {
+		var ps [][]byte
+		for u := from + 1; u <= n; u++ {
+			ps = append(ps, wire[ends[u-1]-vfLStart:ends[u]-vfLStart])
+		}
+		return ps
+	}
+	gap := time.Duration(gapMs) * time.Millisecond
+	op := fmt.Sprintf("c14paced mode=%s n=%d fail=%d gap=%d", mode, n, failU, gapMs)
+	rep := map[string]interface{}{"op": op}
+	run := func(failAt int, record bool) (*vfdoubles.Target, *RedisOutput, vfLPoint, error, int) {
+		tg := vfdoubles.NewTarget()
+		c.seed(tg)
+		if failAt >= 0 {
+			tg.FailAt[failAt] = "OOM command not allowed when used memory > 'maxmemory'"
+		}
+		nSeed := tg.LogLen()
+		ro := c.output(tg)
+		var first vfLPoint
+		if record {
+			first, _ = vfLProcStart(s, c, ro, tg, -1, "paced_first")
+		} else {
+			vfC14Dump(tg, []string{vfLRid, vfLRid0}) // (the same requests as the recorded run)
+			first, _ = vfLRead2(ro)
+		}
+		if !first.ok {
+			return tg, ro, first, nil, nSeed
+		}
+		err := vfLPacedLoop(t, ro, tg, pieces(0), gap, first.off)
+		return tg, ro, first, err, nSeed
+	}
+	// dry run: where is the queued command of unit failU
+	tg0, _, f0, _, _ := run(-1, false)
+	failAt := -1
+	for i, e := range tg0.LogCopy() {
+		if e.Queued && e.Cmd() == "set" && len(e.Args) > 1 && string(e.Args[1]) == ks[failU] {
+			failAt = i
+			break
+		}
+	}
+	if !f0.ok || failAt < 0 {
+		s.Count("paced_not_applicable")
+		return
+	}
+	tg, ro, first, err1, nSeed := run(failAt, true)
+	s.Count("paced_" + mode)
+	if !first.ok {
+		s.Violate("loop-first-start-fails", first.text, rep)
+		return
+	}
+	fa := map[int]string{failAt: "OOM"}
+	replay := func(l []vfdoubles.LogEntry) *vfdoubles.Target { return vfdoubles.ReplayFaults(l, 0, true, fa) }
+	judge := func(tk *vfdoubles.Target, st vfLPoint, where string, k int) bool {
+		com := vfLCommitted(tk, ks)
+		ex := map[string]interface{}{"op": op, "crash_after_request": k - nSeed, "start": st.text, "committed": fmt.Sprint(com[1:])}
+		m := vfLIndexOf(ends, st.off)
+		switch {
+		case !st.ok:
+			s.Violate("loop-restart-fails", fmt.Sprintf("%s: after request #%d a start: %s", where, k-nSeed, st.text), ex)
+			return false
+		case m < 0:
+			s.Violate("loop-resume-inside-unit", fmt.Sprintf("%s: after request #%d resume offset %d is not a unit boundary %v", where, k-nSeed, st.off, ends), ex)
+			return false
+		}
+		for u := 1; u <= m; u++ {
+			if !com[u] {
+				s.Violate("loop-resume-skips-unit", fmt.Sprintf("%s: after request #%d a start resumes after unit %d (offset %d) but unit %d is not committed (committed %v)", where, k-nSeed, m, st.off, u, com[1:]), ex)
+				return false
+			}
+		}
+		if st.seq != int64(m) {
+			s.Violate("loop-start-seq-mismatch", fmt.Sprintf("%s: after request #%d StartPoint left bisyncSeq %d for unit %d", where, k-nSeed, st.seq, m), ex)
+			return false
+		}
+		return true
+	}
+	log1 := tg.LogCopy()
+	// what a fresh process would resume from when the first loop has stopped
+	fr1, _ := vfLRead(c, replay(log1))
+	second, _ := vfLProcStart(s, c, ro, tg, -1, "paced_second")
+	if !judge(replay(tg.LogCopy()), second, "same process, second StartPoint", tg.LogLen()) {
+		return
+	}
+	if second.off < first.off {
+		s.Violate("loop-same-process-start-below-earlier", fmt.Sprintf("the first start of the process resumed at %s, its second start (after the loop ended with %v) at %s", first.text, err1, second.text), rep)
+		return
+	}
+	from := vfLIndexOf(ends, second.off)
+	n2 := tg.LogLen()
+	_ = vfLPacedLoop(t, ro, tg, pieces(from), gap, second.off)
+	log2 := tg.LogCopy()
+	com := vfLCommitted(replay(log2), ks)
+	for u := 1; u < len(com); u++ {
+		if !com[u] {
+			s.Violate("loop-same-process-resumed-run-skips-unit", fmt.Sprintf("the loop stopped (%v), the same process started again at %s and replayed the rest; unit %d was never committed (committed %v)", err1, second.text, u, com[1:]), rep)
+			return
+		}
+	}
+	prev := fr1.off
+	for k := n2; k <= len(log2); k++ {
+		if k < len(log2) && k > 0 && log2[k-1].Queued {
+			continue
+		}
+		tk := replay(log2[:k])
+		fr, _ := vfLRead(c, tk)
+		s.Count("paced_crash_points")
+		if !judge(tk, fr, "second loop of the same process", k) {
+			return
+		}
+		if fr.off < prev {
+			what := "-"
+			if k > 0 {
+				what = log2[k-1].String()
+			}
+			s.Violate("loop-resume-moves-backwards", fmt.Sprintf("the first loop of the process stopped (%v) with a fresh start resuming at %d; the same process started again at %s and replayed on: a stop after request #%d (%s) resumes at %d, a stop before it at %d",
+				err1, fr1.off, second.text, k-nSeed, what, fr.off, prev), map[string]interface{}{"op": op, "crash_after_request": k - nSeed, "start": fr.text})
+			return
+		}
+		prev = fr.off
+	}
+}
+
+// A start that finds NO root checkpoint (initial sync): StartPoint stores bisyncSeq 0 and the offset of Initialize() over
+// whatever the process held - compared with `pstart` (op c14p: start=empty and the memory after the call).
+func vfC14RootlessStart(s *vfutil.Session, mode string, seq, off int64, miss string) {
+	c := &vfLCase{mode: mode, lanes: 1, n: 2}
+	tg := vfdoubles.NewTarget()
+	tg.Lenient = true
+	tg.Seed(0, "hset", vfC14Cp, "bisync_mode", "parallel")
+	ro := c.output(tg)
+	ro.bisyncSeq.Store(seq)
+	ro.bisyncOffset.Store(off)
+	ro.bisyncMissRunID = miss
+	st, _ := vfLProcStart(s, c, ro, tg, -1, "rootless")
+	if st.ok {
+		s.Violate("loop-restart-fails", "a namespace without root checkpoint: StartPoint returned a position: "+st.text, map[string]interface{}{"op": "c14rootless"})
+	}
+}
+
+// (StartPoint without the comparison with the model: the dry run of a paced case)
+func vfLRead2(ro *RedisOutput) (vfLPoint, error) {
+	sp, err := ro.StartPoint(context.Background(), []string{vfLRid, vfLRid0})
+	if err != nil {
+		return vfLPoint{text: "err:" + err.Error()}, err
+	}
+	if sp.RunId != vfLRid {
+		return vfLPoint{text: fmt.Sprintf("initial(%s:%d)", sp.RunId, sp.Offset)}, nil
+	}
+	return vfLPoint{ok: true, off: sp.Offset, seq: ro.bisyncSeq.Load(), text: fmt.Sprintf("%d/seq%d", sp.Offset, ro.bisyncSeq.Load())}, nil
 }
 
 // A start that has journal records to consume (snapshot at unit 1, records 2 and 3: resume after unit 3, the
@@ -899,8 +1505,9 @@ func vfC14RecoverThenLoop(t *testing.T, s *vfutil.Session, mode string) {
 	var seq int64
 	var errS, errL error
 	nStart := 0
+	var ro *RedisOutput
 	synctest.Test(t, func(t *testing.T) {
-		ro := c.output(tg)
+		ro = c.output(tg)
 		ctx, cancel := context.WithCancel(context.Background())
 		defer cancel()
 		sp, errS = ro.StartPoint(ctx, ids)
@@ -946,6 +1553,159 @@ func vfC14RecoverThenLoop(t *testing.T, s *vfutil.Session, mode string) {
 		prev = st.off
 		s.Count("recover_then_loop_crash_points")
 	}
+	// the same process starts again: its first start SELECTED a frontier (the fast path is not armed), so this one
+	// reads the target like a fresh process (clean-up requests included) - compared with the model of the live process
+	st2, _ := vfLProcStart(s, c, ro, tg, -1, "recoverloop")
+	m := vfLIndexOf(ends, st2.off)
+	com := vfLCommitted(vfdoubles.ReplayWith(tg.LogCopy(), 0, true), ks)
+	bad := !st2.ok || m < 3
+	for u := 1; u <= m && !bad; u++ {
+		bad = !com[u]
+	}
+	if bad {
+		s.Violate("loop-same-process-start-below-earlier", fmt.Sprintf("start consumed the journal and resumed after unit 3 (offset %d), the loop replayed units 4, 5 (%v); the second start of the same process: %s (committed %v)", ends[3], errL, st2.text, com[1:]), rep)
+	}
+}
+
+// A start whose purge fails half-way, retried by the SAME process (getOutputStartPoint retries StartPoint on the same
+// RedisOutput). Journal leftovers `left` of THIS numbering without the units before them (a crash before the first flush
+// with the lanes finishing out of order): the start misses (journal gap), arms the frontier-miss fast path and purges;
+// the failK-th write request of the purge gets an error reply: StartPoint returns the error and stores nothing. The retry
+// is answered by the fast path - the root, sequence 0 - WITHOUT reading or purging what the failed purge left behind.
+// Both starts are compared with the model of the live process (op c14p); then the process replays the stream: every
+// unit committed at the end, and at every request prefix a fresh start names a committed prefix and never moves backwards.
+func vfC14Retry(t *testing.T, s *vfutil.Session, mode string, n int, left []int, failK int, seed uint64) {
+	c := &vfLCase{mode: mode, lanes: 1, n: n, cutSeed: seed}
+	wire, ends, ks := c.wire()
+	ids := []string{vfLRid, vfLRid0}
+	mk := func() *vfdoubles.Target {
+		tg := vfdoubles.NewTarget()
+		c.seed(tg)
+		tag := checkpoint.BisyncSlotTag(0)
+		for _, q := range left {
+			tg.Seed(0, "set", ks[q], "v"+strconv.Itoa(q))
+			k := checkpoint.BisyncCommitRecordKey(vfC14Cp, tag, int64(q))
+			rec := &checkpoint.BisyncCommitRecord{Key: k, Version: config.Version, RunID: vfLRid, SyncerID: "vf", UnitSeq: int64(q), StartOffset: ends[q-1], EndOffset: ends[q], MTime: 1, Digest: "d"}
+			tg.Seed(0, vfArgs(k, rec.HashArgs())...)
+			tg.Seed(0, "zadd", checkpoint.BisyncCommitIndexKey(vfC14Cp, tag), strconv.Itoa(q), k)
+		}
+		return tg
+	}
+	op := fmt.Sprintf("c14retry mode=%s n=%d left=%s fail=%d seed=%d", mode, n, checkpoint.VfInts(left), failK, seed)
+	rep := map[string]interface{}{"op": op}
+	// dry run: the write requests of the first start
+	tg0 := mk()
+	vfC14Dump(tg0, ids)
+	nA := tg0.LogLen()
+	c.output(tg0).StartPoint(context.Background(), ids)
+	var ws []int
+	for i, e := range tg0.LogCopy() {
+		if _, ok := vfC14RenderWrite(e); ok && i >= nA {
+			ws = append(ws, i)
+		}
+	}
+	if len(ws) == 0 {
+		s.Count("retry_not_applicable")
+		return
+	}
+	if failK > len(ws) {
+		failK = len(ws)
+	}
+	tg := mk()
+	nSeed := tg.LogLen()
+	ro := c.output(tg)
+	failAt := map[int]string{ws[failK-1]: "ERR vf injected"}
+	a, _ := vfLProcStart(s, c, ro, tg, ws[failK-1], "retry_failing")
+	if a.ok {
+		s.Count("retry_start_survived_the_fault")
+	}
+	b, _ := vfLProcStart(s, c, ro, tg, -1, "retry")
+	s.Count("retry_" + mode)
+	if !b.ok {
+		s.Violate("loop-restart-fails", fmt.Sprintf("request #%d of the start failed (%s); the retry of the same process: %s", failK, a.text, b.text), rep)
+		return
+	}
+	i := vfLIndexOf(ends, b.off)
+	if i < 0 {
+		s.Violate("loop-resume-inside-unit", fmt.Sprintf("retry of the same process resumes at %d, not a unit boundary %v", b.off, ends), rep)
+		return
+	}
+	replay := func(l []vfdoubles.LogEntry) *vfdoubles.Target { return vfdoubles.ReplayFaults(l, 0, true, failAt) }
+	judge := func(tk *vfdoubles.Target, st vfLPoint, where string, k int) bool {
+		com := vfLCommitted(tk, ks)
+		ex := map[string]interface{}{"op": op, "crash_after_request": k - nSeed, "start": st.text, "committed": fmt.Sprint(com[1:])}
+		m := vfLIndexOf(ends, st.off)
+		switch {
+		case !st.ok:
+			s.Violate("loop-restart-fails", fmt.Sprintf("%s: after request #%d a start: %s", where, k-nSeed, st.text), ex)
+			return false
+		case m < 0:
+			s.Violate("loop-resume-inside-unit", fmt.Sprintf("%s: after request #%d resume offset %d is not a unit boundary %v", where, k-nSeed, st.off, ends), ex)
+			return false
+		}
+		for u := 1; u <= m; u++ {
+			if !com[u] {
+				s.Violate("loop-resume-skips-unit", fmt.Sprintf("%s: after request #%d a start resumes after unit %d (offset %d) but unit %d is not committed (committed %v)", where, k-nSeed, m, st.off, u, com[1:]), ex)
+				return false
+			}
+		}
+		if st.seq != int64(m) {
+			s.Violate("loop-start-seq-mismatch", fmt.Sprintf("%s: after request #%d StartPoint left bisyncSeq %d for unit %d", where, k-nSeed, st.seq, m), ex)
+			return false
+		}
+		return true
+	}
+	if !judge(replay(tg.LogCopy()), b, "retry of the same process", tg.LogLen()) {
+		return
+	}
+	nL := tg.LogLen()
+	_, _ = vfBisyncLoopRun(t, ro, tg, vfLRid, wire[ends[i]-vfLStart:], b.off, 300*time.Millisecond)
+	log := tg.LogCopy()
+	com := vfLCommitted(replay(log), ks)
+	for u := 1; u < len(com); u++ {
+		if !com[u] {
+			s.Violate("loop-same-process-resumed-run-skips-unit", fmt.Sprintf("the retried start resumed at %s and the process replayed the stream; unit %d was never committed (committed %v)", b.text, u, com[1:]), rep)
+			return
+		}
+	}
+	prev := int64(-1 << 62)
+	for k := nL; k <= len(log); k++ {
+		if k < len(log) && k > 0 && log[k-1].Queued {
+			continue
+		}
+		tk := replay(log[:k])
+		fr, _ := vfLRead(c, tk)
+		s.Count("retry_crash_points")
+		if !judge(tk, fr, "loop after the retried start", k) {
+			return
+		}
+		if fr.off < prev {
+			s.Violate("loop-resume-moves-backwards", fmt.Sprintf("loop after the retried start (the failed purge left journal records behind): a stop after an earlier request resumed at %d, a stop after request #%d resumes at %d", prev, k-nSeed, fr.off),
+				map[string]interface{}{"op": op, "crash_after_request": k - nSeed, "start": fr.text})
+			return
+		}
+		prev = fr.off
+	}
+	st3, _ := vfLProcStart(s, c, ro, tg, -1, "retry_third")
+	if judge(replay(log), st3, "third start of the same process", len(log)) && st3.off < b.off {
+		s.Violate("loop-same-process-start-below-earlier", fmt.Sprintf("the retried start resumed at %s, the next start of the process at %s", b.text, st3.text), rep)
+	}
+}
+
+func vfC14RetryParse(op string) (string, int, []int, int, uint64, bool) {
+	if !strings.HasPrefix(op, "c14retry ") {
+		return "", 0, nil, 0, 0, false
+	}
+	kv := map[string]string{}
+	for _, tok := range strings.Fields(op)[1:] {
+		if i := strings.IndexByte(tok, '='); i > 0 {
+			kv[tok[:i]] = tok[i+1:]
+		}
+	}
+	n, _ := strconv.Atoi(kv["n"])
+	f, _ := strconv.Atoi(kv["fail"])
+	sd, _ := strconv.ParseUint(kv["seed"], 10, 64)
+	return kv["mode"], n, checkpoint.VfUnInts(kv["left"]), f, sd, true
 }
 
 func TestVerifC14Loop(t *testing.T) {
@@ -965,6 +1725,38 @@ func TestVerifC14Loop(t *testing.T) {
 				vfC14Loop(t, s, c, "replay")
 			}
 		}
+		if i := strings.Index(op, "c14linger mode="); i >= 0 {
+			vfC14Linger(t, s, op[i+len("c14linger mode="):][:1])
+		}
+		if i := strings.Index(op, "c14linger2 "); i >= 0 {
+			for k := 0; k < 12; k++ {
+				vfC14LingerPipelined(t, s, k)
+			}
+		}
+		if i := strings.Index(op, "c14paced "); i >= 0 {
+			kv := map[string]string{}
+			for _, tok := range strings.Fields(op[i:])[1:] {
+				if j := strings.IndexByte(tok, '='); j > 0 {
+					kv[tok[:j]] = strings.TrimRight(tok[j+1:], "\",}")
+				}
+			}
+			n, _ := strconv.Atoi(kv["n"])
+			f, _ := strconv.Atoi(kv["fail"])
+			g, _ := strconv.Atoi(kv["gap"])
+			vfC14PacedRestart(t, s, kv["mode"], n, f, g)
+		}
+		if i := strings.Index(op, "c14recoverloop mode="); i >= 0 {
+			vfC14RecoverThenLoop(t, s, op[i+len("c14recoverloop mode="):][:1])
+		}
+		if i := strings.Index(op, "c14retry "); i >= 0 {
+			op = op[i:]
+			if j := strings.IndexAny(op, "\"\n"); j >= 0 {
+				op = op[:j]
+			}
+			if m, n, left, f, sd, ok := vfC14RetryParse(op); ok {
+				vfC14Retry(t, s, m, n, left, f, sd)
+			}
+		}
 		return
 	}
 	for _, l := range vfutil.Corpus("C14") {
@@ -972,11 +1764,15 @@ func TestVerifC14Loop(t *testing.T) {
 			vfC14Loop(t, s, c, "corpus")
 		}
 	}
-	n := vfutil.Scale(60, 1500)
+	n := vfutil.Scale(60, 800)
 	for i := 0; i < n; i++ {
 		vfC14Loop(t, s, vfC14LoopGen(r.Fork()), "gen")
 	}
-	n = vfutil.Scale(14, 600)
+	n = vfutil.Scale(12, 120)
+	for i := 0; i < n; i++ {
+		vfC14Loop(t, s, vfC14LoopGenLost(r.Fork(), []string{"L", "L", "P", "F"}[i%4]), "lost")
+	}
+	n = vfutil.Scale(14, 300)
 	for i := 0; i < n; i++ {
 		vfC14Loop(t, s, vfC14LoopGenLanes(r.Fork()), "lanes")
 	}
@@ -985,5 +1781,28 @@ func TestVerifC14Loop(t *testing.T) {
 	}
 	for _, m := range []string{"F", "P"} {
 		vfC14RecoverThenLoop(t, s, m)
+	}
+	vfC14RootlessStart(s, "F", 3, 5077, vfLRid)
+	vfC14RootlessStart(s, "P", 0, -1, "")
+	for _, m := range []string{"F", "P"} {
+		vfC14PacedRestart(t, s, m, 5, 4, 150)
+		vfC14PacedRestart(t, s, m, 4+int(r.U64()%3), 3+int(r.U64()%2), 120+10*int(r.U64()%8))
+	}
+	// (whether the receiver of the stopped pipeline loop takes the next sent unit or the stop is a coin the Go
+	// runtime tosses: several trials)
+	for k := 0; k < vfutil.Scale(12, 40); k++ {
+		vfC14LingerPipelined(t, s, k)
+	}
+	for _, l := range vfutil.Corpus("C14") {
+		if m, n, left, f, sd, ok := vfC14RetryParse(l); ok {
+			vfC14Retry(t, s, m, n, left, f, sd)
+		}
+	}
+	n = vfutil.Scale(8, 60)
+	for i := 0; i < n; i++ {
+		rr := r.Fork()
+		nn := rr.Range(3, 6)
+		left := [][]int{{2}, {2, 3}, {3}, {nn}, {2, nn}}[rr.Intn(5)]
+		vfC14Retry(t, s, vfutil.Pick(rr, []string{"F", "P"}), nn, left, rr.Range(1, 4), rr.U64()%1000)
 	}
 }
